@@ -385,3 +385,85 @@ def packages(chk, work, count, stats, cli_every=4, keep=None):
 def shutil_rm(p):
     import shutil
     shutil.rmtree(p, ignore_errors=True)
+
+# ----------------------------------------------------------------------------- the command-line tool on pairs
+
+def cli_subset(chk, work, count, stats):
+    """a subset of every kind of pair through the real command-line tool (one invocation, many files); each file's block is also
+    compared with what the in-process run printed for it (ties the capturing harness to the tool)"""
+    rng = chk.rng
+    M.H.ready()
+    items = []      # (relative path, data)
+    groups = []     # (kind, rel a, rel b, tag names to drop, exact (name, rendered extras) lines to drop on side a)
+    for i in range(count):
+        cat = G.gen_catalog(rng, po_features=rng.random() < 0.5, fully_translated=True, date_bias=True)
+        css = G.charsets_for(cat)
+        if len(css) < 2:
+            continue
+        cs0, cs1 = css[0], rng.choice(css[1:])
+        d = f'cli/{i}'
+        items.append((f'{d}/a/x.po', G.render_po(cat, cs0, G.Style(rng, 0))))
+        items.append((f'{d}/b/x.po', G.render_po(cat, cs0, G.Style(rng, 2))))
+        groups.append(('po-spelling', f'{d}/a/x.po', f'{d}/b/x.po', (), False))
+        items.append((f'{d}/c/x.po', G.render_po(cat, cs1, G.Style(rng, 1))))
+        groups.append(('transcoding', f'{d}/a/x.po', f'{d}/c/x.po', M.CHARSET_TAGS, False))
+        plain = dict(cat, msgs=[dict(m, flags=[], comments=[], previous=None, obsolete=False) for m in cat['msgs'] if not m['obsolete']], initial='', hflags=[])
+        scat = G.sort_catalog(plain, cs0)
+        l1, l2 = G.gen_layout(rng), G.gen_layout(rng)
+        l1['minor'] = l2['minor'] = 0
+        items.append((f'{d}/d/x.po', G.render_po(scat, cs0, G.Style(rng, 1))))
+        items.append((f'{d}/d/x.mo', G.render_mo(scat, cs0, l1)))
+        items.append((f'{d}/e/x.mo', G.render_mo(scat, cs0, l2)))
+        groups.append(('po-vs-mo', f'{d}/d/x.po', f'{d}/d/x.mo', (), True))
+        groups.append(('mo-layout', f'{d}/d/x.mo', f'{d}/e/x.mo', (), False))
+    for rel, data in items:
+        work.write(rel, data)
+    if not items:
+        return []
+    r = M.E.run_cli([rel for rel, _ in items], work.root, timeout=600)
+    stats['cli_pair_files'] += len(items)
+    found = []
+    if r['rc'] != 0 or r['stderr']:
+        return [{'kind': 'cli-run-failed', 'rc': r['rc'], 'stderr': r['stderr'][-800:], 'files': [rel for rel, _ in items][:10]}]
+    blocks = {rel: [] for rel, _ in items}
+    for line in r['stdout'].splitlines():
+        hit = None
+        for rel in blocks:
+            if line[3:].startswith(rel + ': '):
+                hit = rel
+                break
+        if hit is None:
+            return [{'kind': 'cli-line-without-file', 'line': line}]
+        blocks[hit].append(line[:3] + line[3 + len(hit) + 2:])       # 'P: ' + 'tag extras'
+    # tie to the in-process harness
+    from lib import tags as T
+    datas = dict(items)
+    for rel in list(blocks)[::3]:
+        t = M.run_tags(os.path.join(work.root, rel))
+        if t[0] == 'ok':
+            chk2, calls = M.H.make_checker(os.path.join(work.root, rel))
+            chk2.check()
+            mine = []
+            for name, extra in calls:
+                s = T.get_tag(name).format('@', *extra)
+                mine.append(s[:3] + s[3 + 3:])
+            stats['cli_vs_inproc'] += 1
+            if mine != blocks[rel]:
+                found.append({'kind': 'cli-differs-from-in-process-run', 'file': rel, 'file_hex': datas[rel].hex(), 'cli': blocks[rel][:20], 'in_process': mine[:20]})
+                return found
+    def name_of(l):
+        return l[3:].split(' ', 1)[0]
+    for kind, a, b, dropn, exempt in groups:
+        la = [l for l in blocks[a] if name_of(l) not in dropn]
+        lb = [l for l in blocks[b] if name_of(l) not in dropn]
+        if exempt:
+            la = [l for l in la if l != 'W: no-date-header-field POT-Creation-Date']
+        stats['cli_pairs'] += 1
+        if la != lb:
+            k = next(i for i in range(max(len(la), len(lb))) if la[i:i + 1] != lb[i:i + 1])
+            found.append({'kind': 'cli-' + kind, 'files': [a, b], 'first': {'file_hex': datas[a].hex(), 'output': blocks[a][:40]},
+                          'second': {'file_hex': datas[b].hex(), 'output': blocks[b][:40]}, 'first_difference': {'index': k, 'first': la[k:k + 1], 'second': lb[k:k + 1]},
+                          'replay': 'write both files (hex) to the given relative paths; /venv/bin/python /repo/i18nspector <a> <b>'})
+            if len(found) >= 3:
+                break
+    return found
